@@ -360,30 +360,38 @@ def cases(rng, tier, n=None):
                     if parse_figure(render(sym)) == code_of(sym):
                         for k in rng.sample(range(-12, 13), 6):
                             out.append({'op': 'chord', 'input': {'sym': sym, 'k': k}})
-    for i in range(40000 if thorough else 1500):
+    if thorough:
+        # every one of the 35 root spellings x every abbreviation x every k in -12..12 (no modifications, no bass)
+        for ki in range(len(abbrevs)):
+            for st in range(7):
+                for al in range(-2, 3):
+                    sym = sym_of_figure(render({'root': [st, al], 'kind': ki, 'mods': [], 'bass': None}))
+                    for k in range(-12, 13):
+                        out.append({'op': 'chord', 'input': {'sym': sym, 'k': k}})
+    for i in range(150000 if thorough else 2400):
         k = rng.randint(-127, 127) if rng.random() < 0.3 else rng.randint(-13, 13)
         out.append({'op': 'chord', 'input': {'sym': gen_sym(rng, kind=(i % len(abbrevs)) if i < 4 * len(abbrevs) else None),
                                              'k': k}})
     for _ in range(400 if thorough else 40):
         out.append({'op': 'chord_bad', 'input': {'fig': rng.choice(BAD_FIGURES), 'k': rng.randint(-13, 13)}})
     # --- note sequences
-    for _ in range(30000 if thorough else 1200):
+    for _ in range(90000 if thorough else 2000):
         out.append(gen_ns_case(rng))
     # --- melodies
-    for _ in range(40000 if thorough else 1200):
+    for _ in range(120000 if thorough else 2000):
         lo, hi = gen_range(rng)
         k = rng.randint(-127, 127) if rng.random() < 0.4 else rng.randint(-14, 14)
         out.append({'op': 'mel', 'input': {'k': k, 'lo': lo, 'hi': hi, 'evs': gen_events(rng)}})
-    for _ in range(30000 if thorough else 1000):
+    for _ in range(90000 if thorough else 1600):
         lo, hi = gen_range(rng)
         key = None if rng.random() < 0.1 else rng.randrange(12)
         out.append({'op': 'squash', 'input': {'lo': lo, 'hi': hi, 'key': key, 'evs': gen_events(rng)}})
     # --- progressions and lead sheets
-    for _ in range(8000 if thorough else 300):
+    for _ in range(25000 if thorough else 500):
         nn = rng.randint(0, 6)
         figs = [gen_text(rng, p_nc=0.25, p_bad=0.03) for _ in range(nn)]
         out.append({'op': 'prog', 'input': {'k': rng.randint(-30, 30), 'figs': figs}})
-    for _ in range(8000 if thorough else 300):
+    for _ in range(25000 if thorough else 500):
         nn = rng.randint(0, 8)
         figs = [gen_text(rng, p_nc=0.25, p_bad=0.02) for _ in range(nn)]
         lo, hi = gen_range(rng)
@@ -394,7 +402,7 @@ def cases(rng, tier, n=None):
             out.append({'op': 'ls_s', 'input': {'lo': lo, 'hi': hi, 'key': rng.randrange(12),
                                                 'evs': gen_events(rng, nn), 'figs': figs}})
     # --- clamp
-    for _ in range(20000 if thorough else 600):
+    for _ in range(60000 if thorough else 1000):
         lo = rng.randint(0, 100)
         hi = lo + rng.randint(0, 60)
         if rng.random() < 0.8:
@@ -404,7 +412,7 @@ def cases(rng, tier, n=None):
             a, b = sorted([rng.randint(0, 127), rng.randint(0, 127)])
         out.append({'op': 'clamp', 'input': [rng.randint(-40, 40), a, b, lo, hi]})
     # --- augment_note_sequence (implementation side only: uses `random`)
-    for _ in range(3000 if thorough else 150):
+    for _ in range(10000 if thorough else 250):
         c = gen_ns_case(rng, p_bad=0.0)['input']
         lo = rng.randint(0, 60)
         hi = lo + rng.randint(20, 67)
